@@ -491,6 +491,20 @@ TEMPLATES = {
          "character(*, ck), intent(in) :: s"],
         ["end module m"],
     ],
+    "procedure-prefixes": [
+        ["module m"], ["contains"],
+        ["impure elemental function f(x)", "IMPURE ELEMENTAL FUNCTION F(X)", "elemental impure function f(x)", "impure  elemental  function f ( x )"],
+        ["real(pure_kind), intent(in) :: x", "REAL(PURE_KIND), INTENT(IN) :: X"],
+        ["real(pure_kind) :: f", "REAL(PURE_KIND) :: F"],
+        ["end function f", "end function", "END FUNCTION F"],
+        ["non_recursive subroutine s()", "NON_RECURSIVE SUBROUTINE S()", "non_recursive subroutine s"],
+        ["end subroutine s", "end subroutine"],
+        ["pure recursive integer(8) function g(n) result(r)", "recursive pure integer(8) function g(n) result(r)", "PURE RECURSIVE INTEGER(8) FUNCTION G(N) RESULT(R)",
+         "pure recursive integer(kind=8) function g(n) result(r)"],
+        ["integer, intent(in) :: n", "INTEGER, INTENT(IN) :: N"],
+        ["end function g", "end function"],
+        ["end module m"],
+    ],
     "type-selectors": [
         ["module m"],
         ["character(len=8, kind=1) :: s", "character(kind=1, len=8) :: s", "character(8, kind=1) :: s", "character(8, 1) :: s",
@@ -623,6 +637,8 @@ EXPECTED = {
                                       "functions": [["f", {"args": [["x", {}]], "retvar": "r"}]]}]]},
     "declarations": {"modules": [["m", {"variables": [["n", {}], ["v", {}], ["c", {}]]}]]},
     "declarations-2": {"modules": [["m", {"variables": [["d", {}], ["p", {}], ["flag", {}], ["z", {}], ["s", {}]]}]]},
+    "procedure-prefixes": {"modules": [["m", {"functions": [["f", {"args": [["x", {}]], "retvar": "f"}], ["g", {"args": [["n", {}]], "retvar": "r"}]],
+                                              "subroutines": [["s", {}]]}]]},
     "type-selectors": {"modules": [["m", {"variables": [["s", {}], ["t", {}], ["d", {}]]}]]},
     "kind-selectors": {"modules": [["m", {"variables": [["i8", {}], ["r", {}], ["l1", {}]]}]]},
     "attribute-statements": {"subroutines": [["s", {"args": [["a", {}], ["w", {}], ["k", {}]]}]]},
@@ -672,6 +688,16 @@ def _facts(tname, f):
         expect(v.vartype == "real" and str(v.kind) == "8" and sorted(a.lower() for a in v.attribs) == ["allocatable", "dimension(n)"],
                "v: real(8), dimension(n), allocatable")
         expect(c.vartype == "character" and str(c.strlen) == "10", "c: character(len=10)")
+    if tname == "procedure-prefixes":
+        m = f.modules[0]
+        fn = {str(x.name).lower(): x for x in m.functions}
+        sub = m.subroutines[0]
+        low = lambda p_: sorted(a.lower() for a in p_.attribs)
+        expect(low(fn["f"]) == ["elemental", "impure"], "f: impure elemental")
+        expect(str(getattr(fn["f"].retvar, "kind", None)).lower() == "pure_kind", "f: result real(kind=pure_kind)")
+        expect(low(sub) == ["non_recursive"], "s: non_recursive")
+        expect(low(fn["g"]) == ["pure", "recursive"], "g: pure recursive")
+        expect(getattr(fn["g"].retvar, "vartype", None) == "integer" and str(getattr(fn["g"].retvar, "kind", None)) == "8", "g: result integer(kind=8)")
     if tname == "type-selectors":
         m = f.modules[0]
         s_, t_, d_ = var(m, "s"), var(m, "t"), var(m, "d")
